@@ -453,6 +453,15 @@ def check(ctx):
     c20.check_delivery(sub)
     for rule, key, ok, where, what, detail in sub.got:
         ctx.ob('R6.1-queue-deliveries', '%s/%s' % (rule, key), ok, where, what, detail)
+    # "in safe mode no reaction fires without its full complement of reactants": the entry point gives every stochastic run that asks
+    # for safe mode the safe interface - also a run that only delay=True makes stochastic (C07 R7.2-dispatch-table) - re-emitted here
+    from ..core import SubCtx
+    from . import c07
+    sub = SubCtx(ctx)
+    c07.check_lattice(sub)
+    for rule, key, ok, where, what, detail in sub.got:
+        if rule == 'R7.2-dispatch-table' and key.startswith('interface/'):
+            ctx.ob('R6.4-safe-dispatch', key, ok, where, what, detail)
     ctx.floor('R6.1-queue-deliveries', 3)
     sub = SubCtx(ctx)
     c03.check_accumulation(sub)
